@@ -6,9 +6,9 @@ import SlotVerif.Model.Extract
 `checkTable` accepts is a lower bound for the cost of *every* extraction tree of every live class
 (an extraction tree = a choice of one e-node per subterm, i.e. a term represented in the class), for
 the three cost functions of the runs.  Per run the Lean side computes a table by relaxation, checks
-it, and the implementation's `get_best_cost` must equal it for every live class; that the bound is
-attained is shown by the implementation's own extracted term, whose independently recomputed cost
-must equal the reported one.
+it, and the implementation's `get_best_cost` must equal it for every live class; `table_attained` / `table_is_min`: every entry of an
+accepted table is the cost of some represented term, hence the *minimum* over all represented terms
+of the class.  The implementation's own extracted term is re-costed independently per run as well.
 -/
 namespace SV.C06
 open SV SV.Extract SV.Snap
@@ -174,6 +174,103 @@ theorem nodeCost_gt_child (cf : CF) (v : Nat) (ks : List Nat) (k : Nat) (hk : k 
   | ast => simp only [nodeCost]; have := key1 ks 0 hk; omega
   | depth => simp only [nodeCost]; have := key2 ks 0 hk; omega
   | op => simp only [nodeCost]; have := key1 ks 0 hk; omega
+
+/-! ### the bound is attained -/
+
+theorem mem_of_table_get {t : Table} {c k : Nat} (h : t.get c = some k) : (c, k) ∈ t := by
+  simp only [Table.get, Option.map_eq_some_iff] at h
+  obtain ⟨p, hp, rfl⟩ := h
+  have h1 := List.find?_some hp
+  have h2 := List.mem_of_find?_eq_some hp
+  have : p.1 = c := by simpa using h1
+  rw [← this]; exact h2
+
+theorem attained_of_check {cf : CF} {s : Snap} {t : Table} (h : checkTable cf s t = true) {c k : Nat}
+    (hg : t.get c = some k) : ∃ (cl : SClass) (n : Nat) (e : Node × SlotMap) (ks : List Nat), s.cls c = some cl ∧
+      s.isAlive c = true ∧ cl.nodes[n]? = some e ∧ kidCosts t e.1 = some ks ∧ nodeCost cf e.1.v ks = k := by
+  unfold checkTable at h
+  simp only [Bool.and_eq_true, List.all_eq_true] at h
+  have := h.2 (c, k) (mem_of_table_get hg)
+  simp only [Bool.and_eq_true] at this
+  obtain ⟨halive, hrest⟩ := this
+  cases hcl : s.cls c with
+  | none => simp only [hcl] at hrest; simp at hrest
+  | some cl =>
+    simp only [hcl, List.any_eq_true] at hrest
+    obtain ⟨e, he, hcost⟩ := hrest
+    obtain ⟨n, hn, hne⟩ := List.getElem_of_mem he
+    cases hk : kidCosts t e.1 with
+    | none => rw [hk] at hcost; simp at hcost
+    | some ks =>
+      rw [hk] at hcost
+      exact ⟨cl, n, e, ks, rfl, halive, by rw [← hne]; exact List.getElem?_eq_getElem hn, hk, by simpa using hcost⟩
+
+theorem mem_of_mapM_get {t : Table} : ∀ (as : List AppId) (ks : List Nat), (as.mapM fun a => t.get a.id) = some ks →
+    ∀ a ∈ as, ∀ k', t.get a.id = some k' → k' ∈ ks
+  | [], _, _, a, ha, _, _ => by simp at ha
+  | b :: bs, ks, h, a, ha, k', hk' => by
+    simp only [List.mapM_cons, Option.bind_eq_bind, Option.bind_eq_some_iff, Option.pure_def, Option.some.injEq] at h
+    obtain ⟨k0, hk0, ks0, hks0, rfl⟩ := h
+    rcases List.mem_cons.mp ha with rfl | hb
+    · rw [hk'] at hk0
+      have : k' = k0 := by simpa using hk0
+      simp [this]
+    · exact List.mem_cons_of_mem _ (mem_of_mapM_get bs ks0 hks0 a hb k' hk')
+
+/-- subtrees for a list of children whose table entries are all attained -/
+theorem kids_attained {cf : CF} {s : Snap} {t : Table} (ids : List Nat) :
+    ∀ (ks : List Nat), (ids.mapM fun i => t.get i) = some ks →
+      (∀ i k', i ∈ ids → t.get i = some k' → ∃ T, wfTree s T = true ∧ T.root = i ∧ treeCost cf s T = k') →
+      ∃ Ts, wfKids s ids Ts = true ∧ kidsCost cf s Ts = ks := by
+  induction ids with
+  | nil => intro ks h _; simp at h; subst h; exact ⟨[], rfl, rfl⟩
+  | cons i is ih =>
+    intro ks h hall
+    simp only [List.mapM_cons, Option.bind_eq_bind, Option.bind_eq_some_iff, Option.pure_def, Option.some.injEq] at h
+    obtain ⟨k0, hk0, ks0, hks0, rfl⟩ := h
+    obtain ⟨T, hT1, hT2, hT3⟩ := hall i k0 (by simp) hk0
+    obtain ⟨Ts, hTs1, hTs2⟩ := ih ks0 hks0 (fun j k' hj hk' => hall j k' (by simp [hj]) hk')
+    refine ⟨T :: Ts, ?_, ?_⟩
+    · simp [wfKids, hT1, hT2, hTs1]
+    · simp [kidsCost, hT3, hTs2]
+
+/-- **the accepted table is attained**: for every entry there is a represented term (extraction tree) of exactly
+that cost.  With `table_lower_bound`: the entry is the *minimum* cost over all represented terms of the class. -/
+theorem table_attained {cf : CF} {s : Snap} {t : Table} (h : checkTable cf s t = true) :
+    ∀ (k c : Nat), t.get c = some k → ∃ T, wfTree s T = true ∧ T.root = c ∧ treeCost cf s T = k := by
+  intro k
+  induction k using Nat.strongRecOn with
+  | _ k ih =>
+    intro c hg
+    obtain ⟨cl, n, e, ks, hcl, halive, hn, hkc, hcost⟩ := attained_of_check h hg
+    have hkids : ∃ Ts, wfKids s ((Node.appOcc e.1).map (·.id)) Ts = true ∧ kidsCost cf s Ts = ks := by
+      apply kids_attained
+      · unfold kidCosts at hkc
+        rw [List.mapM_map]; exact hkc
+      · intro i k' hi hk'
+        apply ih k' _ i hk'
+        -- a child's entry is strictly below the node's cost
+        have hmem : k' ∈ ks := by
+          unfold kidCosts at hkc
+          obtain ⟨a, ha, rfl⟩ := List.mem_map.mp hi
+          exact mem_of_mapM_get (Node.appOcc e.1) ks hkc a ha k' hk'
+        rw [← hcost]
+        exact nodeCost_gt_child cf e.1.v ks k' hmem (by unfold opWeight; split <;> omega)
+    obtain ⟨Ts, hTs1, hTs2⟩ := hkids
+    refine ⟨.mk c n Ts, ?_, rfl, ?_⟩
+    · simp [wfTree, hcl, halive, hn, hTs1]
+    · simp [treeCost, hcl, hn, hTs2, hcost]
+
+/-- the accepted entry is the minimum over all represented terms of the class -/
+theorem table_is_min {cf : CF} {s : Snap} {t : Table} (h : checkTable cf s t = true) {c k : Nat} (hg : t.get c = some k) :
+    (∃ T, wfTree s T = true ∧ T.root = c ∧ treeCost cf s T = k) ∧
+    (∀ T, wfTree s T = true → T.root = c → k ≤ treeCost cf s T) := by
+  refine ⟨table_attained h k c hg, ?_⟩
+  intro T hT hroot
+  obtain ⟨k', hk1, hk2⟩ := table_lower_bound h T hT
+  rw [hroot, hg] at hk1
+  have : k = k' := by simpa using hk1
+  omega
 
 /-- non-vacuity: on a two-class state the relaxation table is accepted and a valid tree exists -/
 def demo : Snap :=
